@@ -204,15 +204,27 @@ def splice(prelude_src, master_src, ext_src, deferred, quarantined=()):
     for name, it in etypes.items():
         if name not in report["types"]:
             report["errors"].append("type %s of /repo is missing from the contracts" % name)
-    # functions of /repo that have no contract yet
+    # functions of /repo that have no contract (new in the working tree): emitted unverified and without
+    # a specification (`external_body`); what their callers can still prove is decided downstream
     tail = []
-    for ck, it in ext.walk():
-        if it.kind == "fn" and it.exec_fn and (ck, it.name) not in seen:
+    report["uncontracted"] = []
+    for top in ext.items:
+        members = top.children if top.kind == "impl" else [top]
+        ck = container_key(top.header_key) if top.kind == "impl" else ""
+        new_fns = [it for it in members if it.kind == "fn" and it.exec_fn and (ck, it.name) not in seen]
+        if not new_fns:
+            continue
+        texts = []
+        for it in new_fns:
             name = (ck + "::" if ck else "") + it.name
-            if name in deferred:
-                report["deferred"].append(name)
-            else:
-                report["errors"].append("function %s of /repo has no contract and is not listed as deferred" % name)
+            report["uncontracted"].append(name)
+            texts.append("#[verifier::external_body] // @uncontracted: this function of /repo has no contract\n"
+                         + ext.src[ext.toks[it.lo].start:ext.toks[it.hi - 1].end])
+        if top.kind == "impl":
+            head = ext.src[ext.toks[top.lo].start:ext.toks[top.body_lo].end]
+            tail.append(head + "\n" + "\n".join(texts) + "\n}\n")
+        else:
+            tail.extend(texts)
     # apply edits
     out = []
     pos = 0
@@ -221,6 +233,7 @@ def splice(prelude_src, master_src, ext_src, deferred, quarantined=()):
         out.append(r)
         pos = e
     out.append(master.src[pos:])
+    out.append("\n" + "\n".join(tail) + "\n" if tail else "")
     gen = prelude_src + "\n" + "".join(out)
     return gen, report
 
